@@ -22,6 +22,8 @@ type FuncResult struct {
 	Lits        []*Term
 	Loops       int
 	LoopsNoVariant []int
+	RangeLoops       int
+	LoopsWithVariant int
 	Paths       int
 	Cuts        int
 	Err         string
@@ -894,8 +896,14 @@ func verifyFunc(w *World, sp *Specs, fn *ssa.Function, spec *FuncSpec, safety bo
 	res.Loops = len(li.headers)
 	for _, h := range li.headers {
 		k := li.ordinal[h]
+		if h.Comment == "rangeindex.loop" || h.Comment == "rangeiter.loop" {
+			res.RangeLoops++ // a range over a slice, array, string or map: terminates by construction (the length is read once)
+			continue
+		}
 		if spec == nil || spec.Loops[k] == nil || spec.Loops[k].Decreases == nil {
 			res.LoopsNoVariant = append(res.LoopsNoVariant, k)
+		} else {
+			res.LoopsWithVariant++
 		}
 	}
 	res.Paths = x.paths
